@@ -59,3 +59,288 @@ Theorem C02_results_with_same_members_are_equal :
     (forall x, In x a <-> In x b) -> VSet a = VSet b /\ veqb (VSet a) (VSet b) = true.
 Proof. exact results_extensional. Qed.
 Print Assumptions C02_results_with_same_members_are_equal.
+
+From Arrai Require Import Rep.DictRep Proofs.DictRepP.
+(* ---- the Go dictionary representation (Rep/DictRep.v): representation-wise equality (Dict.equalDict, slot by slot)
+   is extensional equality, for all dictionaries meeting the representation invariant - which every history of
+   operations preserves (C01_dict_histories_compute_the_set_operations) ---- *)
+Theorem C02_dict_equality_is_extensional :
+  forall d d2, dict_ok d = true -> dict_ok d2 = true ->
+    (dict_equal d d2 = true <-> forall y, In y (dict_enum d) <-> In y (dict_enum d2)).
+Proof. exact dict_equal_extensional. Qed.
+Print Assumptions C02_dict_equality_is_extensional.
+
+(* the invariant is what makes it so: a several-values slot left with ONE value denotes the same set as the bare
+   value but is not equal to it (the defect pattern of a Without that forgets to collapse the slot) *)
+Theorem C02_dict_equality_without_invariant_refuted :
+  exists d d2, (forall y, In y (dict_enum d) <-> In y (dict_enum d2)) /\ dict_equal d d2 = false /\ dict_ok d = false.
+Proof.
+  exists [(vint 1, Multi [vint 2])], [(vint 1, One (vint 2))].
+  destruct dict_equal_needs_invariant as (E & F & G). split; [intros y; cbv zeta in E; rewrite E; tauto | split; assumption].
+Qed.
+Print Assumptions C02_dict_equality_without_invariant_refuted.
+
+From Arrai Require Import Rep.Builder Proofs.BuilderP Proofs.BuilderSeqP Proofs.BuilderDictP Proofs.BuilderAllP Proofs.BuilderBytesP Proofs.BuilderTupP Proofs.BuilderArrP Proofs.BuilderLeafP Proofs.BuilderIndP.
+
+(* ---------- the set builder of rel/ (transcribed in Rep/Builder.v) ----------
+   Equality in Go is representation-wise, so extensional equality relies on the builder choosing one representation
+   per denotation.  `build` is rel.NewSet, `bucketise` SetBuilder.Add, `finish_bucket` the per-bucket finishers,
+   `rep_equal` the Equal methods, `abs` the denotation.  What is proved for all member lists is the skeleton of the
+   builder; the per-bucket finishers and Equal are compared with the implementation on every run (Check/BuilderCheck.v). *)
+
+(* SetBuilder.Add: the buckets are a partition of the member list - every bucket holds exactly the members of its kind,
+   in insertion order, is never empty, the keys are pairwise different and every member has its bucket - so nothing is
+   dropped, duplicated or moved by bucketing *)
+Theorem C02_builder_buckets_partition_members :
+  forall ms,
+    NoDup (map fst (bucketise ms)) /\
+    (forall b vs, In (b, vs) (bucketise ms) -> vs = filter (fun m => bucket_eq (bucket_of m) b) ms /\ vs <> []) /\
+    (forall m, In m ms -> In (bucket_of m) (map fst (bucketise ms))).
+Proof. exact bucketise_partition. Qed.
+Print Assumptions C02_builder_buckets_partition_members.
+
+(* SetBuilder.Finish: the built set denotes exactly the members it was given (none dropped, none added) whenever no two
+   bucket keys print the same text and every per-bucket finisher denotes exactly the members of its bucket.
+   (The modular form; both hypotheses are discharged in C02_builder_denotes_members below, and both are needed: see the
+   _refuted theorems.) *)
+Theorem C02_builder_denotes_members_partial :
+  forall ms r, build ms = BOk r ->
+    NoDup (map (fun x => bucket_str (fst x)) (bucketise ms)) ->
+    (forall b vs s, In (b, vs) (bucketise ms) -> finish_bucket b vs = BOk s ->
+       forall v, In v (set_elems (abs s)) <-> In v (map abs vs)) ->
+    abs r = mkset (map abs ms).
+Proof. exact build_denotes_members_modular. Qed.
+Print Assumptions C02_builder_denotes_members_partial.
+
+(* genericSetFinish + newSetFromFrozenSet: the generic bucket (numbers, sets, the empty tuple) denotes exactly its members -
+   {()} becoming TrueSet included - whenever Equal never identifies two of them that denote different values *)
+Theorem C02_generic_bucket_denotes_members :
+  forall vs, (forall x y, In x vs -> In y vs -> rep_equal x y = true -> abs x = abs y) ->
+    (forall x, In x vs -> rep_equal (RTupG []) x = true -> abs x = VTup []) ->
+    forall v, In v (set_elems (abs (finish_generic vs))) <-> In v (map abs vs).
+Proof. exact finish_generic_denotes_members. Qed.
+Print Assumptions C02_generic_bucket_denotes_members.
+
+(* rel.NewSet denotes exactly the members it is given - no member dropped, altered or added, whatever the insertion order,
+   repetitions, offsets, holes, multi-valued keys, number of buckets - for every member list in the well-formed region
+   (`wf_members`: bucket keys that print alike are the same bucket and tuples filed together have the same duplicate-free
+   names; characters are not negative; at most one payload per index; byte indices without gaps - each excluded case is an
+   open finding with a _refuted witness below) on whose members, dict keys / values and relation cells Equal never
+   identifies two different denotations (`equal_sound_on`, decidable: `equal_sound_onb`).
+   Proved through the five per-bucket finishers: asString, asBytes, asArray (Proofs/BuilderSeqP.v), NewDict(true, ..) and
+   relationBuilder (Proofs/BuilderDictP.v), genericSetFinish (Proofs/BuilderP.v). *)
+Theorem C02_builder_denotes_members :
+  forall ms r, build ms = BOk r -> wf_members ms -> equal_sound_on ms -> abs r = mkset (map abs ms).
+Proof. exact build_denotes_members. Qed.
+Print Assumptions C02_builder_denotes_members.
+
+(* hence two member lists with the same denotations are built to representations with the same denotation *)
+Theorem C02_same_members_same_denotation :
+  forall ms ms' r r', build ms = BOk r -> build ms' = BOk r' -> wf_members ms -> wf_members ms' ->
+    equal_sound_on ms -> equal_sound_on ms' -> mkset (map abs ms) = mkset (map abs ms') -> abs r = abs r'.
+Proof.
+  intros ms ms' r r' Hb Hb' Hw Hw' Hs Hs' He.
+  rewrite (build_denotes_members ms r Hb Hw Hs), (build_denotes_members ms' r' Hb' Hw' Hs'). exact He.
+Qed.
+Print Assumptions C02_same_members_same_denotation.
+
+(* strings: the representation is a function of the denotation.  Two well-formed lists of character tuples (characters not
+   negative, at most one character per index) with the same denotation - in any insertion order, with any repetitions,
+   offsets and holes - are built by rel.NewSet to the very same String{offset, runes, hole count}; so the results are Equal.
+   This is C02_representation_is_function_of_denotation for the String representation; for the other representations
+   it is covered by the correspondence run only. *)
+Theorem C02_string_representation_is_function_of_denotation :
+  forall ms ms', ms <> [] ->
+    (forall v, In v ms -> exists a c, v = RTupChar a c /\ 0 <= c) ->
+    (forall v, In v ms' -> exists a c, v = RTupChar a c /\ 0 <= c) ->
+    (forall a c c', In (RTupChar a c) ms -> In (RTupChar a c') ms -> c = c') ->
+    mkset (map abs ms) = mkset (map abs ms') ->
+    build ms = build ms' /\ exists r, build ms = BOk r /\ build ms' = BOk r /\ rep_equal r r = true.
+Proof. exact string_representation_function_of_denotation. Qed.
+Print Assumptions C02_string_representation_is_function_of_denotation.
+
+(* the same for byte arrays: one byte per index, same denotation => the very same Bytes{b, offset} *)
+Theorem C02_bytes_representation_is_function_of_denotation :
+  forall ms ms', ms <> [] ->
+    (forall v, In v ms -> exists a c, v = RTupByte a c) ->
+    (forall v, In v ms' -> exists a c, v = RTupByte a c) ->
+    (forall a c c', In (RTupByte a c) ms -> In (RTupByte a c') ms -> c = c') ->
+    mkset (map abs ms) = mkset (map abs ms') ->
+    build ms = build ms' /\ exists r, build ms = BOk r /\ build ms' = BOk r /\ rep_equal r r = true.
+Proof. exact bytes_representation_function_of_denotation. Qed.
+Print Assumptions C02_bytes_representation_is_function_of_denotation.
+
+(* rel.NewTuple (tuple canonicalisation).  `tuple_spec attrs` is the tuple value the attributes denote (a map filled in
+   argument order, kept sorted by name).  A tuple that does not pair "@" with one of @char / @byte / @item / @value - in
+   any argument order, of any width - is built as a GenericTuple denoting exactly its attributes (the "@"-second swap and
+   the second specialisation in TupleBuilder.Finish included) ... *)
+Theorem C02_tuple_build_generic_denotes_attributes :
+  forall attrs, NoDup (map fst attrs) ->
+    ~ (In n_at (map fst attrs) /\ exists k, (k = n_char \/ k = n_byte \/ k = n_item \/ k = n_value) /\ In k (map fst attrs)) ->
+    exists m, tuple_build attrs = BOk (RTupG m) /\ abs (RTupG m) = tuple_spec attrs.
+Proof. exact tuple_build_generic. Qed.
+Print Assumptions C02_tuple_build_generic_denotes_attributes.
+
+(* ... and a well-typed (@, @char | @byte | @item | @value) pair is built, in either argument order, as the specialised
+   tuple type, which denotes the same two attributes: one representation per denotation for these tuples *)
+Theorem C02_tuple_build_sugar_specialises :
+  forall a,
+  (forall c, -2147483648 <= c < 2147483648 ->
+     let l := [(n_at, RNum (NInt a)); (n_char, RNum (NInt c))] in
+     tuple_build l = BOk (RTupChar a c) /\ tuple_build (rev l) = BOk (RTupChar a c) /\
+     abs (RTupChar a c) = tuple_spec l /\ abs (RTupChar a c) = tuple_spec (rev l)) /\
+  (forall b, 0 <= b < 256 ->
+     let l := [(n_at, RNum (NInt a)); (n_byte, RNum (NInt b))] in
+     tuple_build l = BOk (RTupByte a b) /\ tuple_build (rev l) = BOk (RTupByte a b) /\
+     abs (RTupByte a b) = tuple_spec l /\ abs (RTupByte a b) = tuple_spec (rev l)) /\
+  (forall x,
+     let l := [(n_at, RNum (NInt a)); (n_item, x)] in
+     tuple_build l = BOk (RTupItem a x) /\ tuple_build (rev l) = BOk (RTupItem a x) /\
+     abs (RTupItem a x) = tuple_spec l /\ abs (RTupItem a x) = tuple_spec (rev l)) /\
+  (forall k v,
+     let l := [(n_at, k); (n_value, v)] in
+     tuple_build l = BOk (RTupEntry k v) /\ tuple_build (rev l) = BOk (RTupEntry k v) /\
+     abs (RTupEntry k v) = tuple_spec l /\ abs (RTupEntry k v) = tuple_spec (rev l)).
+Proof. exact tuple_build_sugar. Qed.
+Print Assumptions C02_tuple_build_sugar_specialises.
+
+(* arrays: the Array{values, offset, count} asArray builds is a function of the set of item tuples given (one item per
+   index), whatever the insertion order and repetitions (the counter is shown to be the number of non-nil cells).  At the
+   level of denotations this needs Equal to be complete on the items, which is not proved. *)
+Theorem C02_array_representation_is_function_of_members :
+  forall vs vs', vs <> [] ->
+    (forall v, In v vs -> exists a x, v = RTupItem a x) -> (forall v, In v vs' -> exists a x, v = RTupItem a x) ->
+    (forall a x x', In (RTupItem a x) vs -> In (RTupItem a x') vs -> x = x') ->
+    (forall m, In m vs <-> In m vs') ->
+    finish_array vs = finish_array vs'.
+Proof. exact finish_array_function_of_members. Qed.
+Print Assumptions C02_array_representation_is_function_of_members.
+
+(* first-order data - numbers, character / byte tuples, empty, true, strings, byte arrays, item / entry tuples of these:
+   the Equal methods are sound on them without any invariant, so for member lists whose members, dict keys / values and
+   relation cells are first-order, C02_builder_denotes_members holds with the well-formedness hypothesis alone *)
+Theorem C02_equal_sound_on_first_order :
+  forall a, leaf a = true -> forall b, rep_equal a b = true -> abs a = abs b.
+Proof. exact leaf_sound. Qed.
+Print Assumptions C02_equal_sound_on_first_order.
+
+Theorem C02_builder_denotes_members_first_order :
+  forall ms r, build ms = BOk r -> wf_members ms -> (forall x, component ms x -> leaf x = true) ->
+    abs r = mkset (map abs ms).
+Proof. exact build_first_order_denotes_members. Qed.
+Print Assumptions C02_builder_denotes_members_first_order.
+
+(* ... and, hereditarily, on arrays and generic sets of such representations (`simple`): nested arrays and sets of
+   first-order data.  Proved with a nested induction principle for representations (Proofs/BuilderIndP.v rep_ind'). *)
+Theorem C02_equal_sound_on_simple :
+  forall a, simple a = true -> forall b, rep_equal a b = true -> abs a = abs b.
+Proof. exact simple_sound. Qed.
+Print Assumptions C02_equal_sound_on_simple.
+
+Theorem C02_builder_denotes_members_simple :
+  forall ms r, build ms = BOk r -> wf_members ms -> (forall x, component ms x -> simple x = true) ->
+    abs r = mkset (map abs ms).
+Proof. exact build_simple_denotes_members. Qed.
+Print Assumptions C02_builder_denotes_members_simple.
+
+Theorem C02_equal_soundness_is_decidable : forall ms, equal_sound_onb ms = true -> equal_sound_on ms.
+Proof. exact equal_sound_onb_ok. Qed.
+Print Assumptions C02_equal_soundness_is_decidable.
+
+(* outside the hypotheses the statements fail in the faithful model (each witness is replayed on the implementation by the
+   region cases of the check): two items superimposed at one index - the last one written wins, so a member is lost and
+   equal sets built in different orders get representations that are not Equal (KF-C02-01) *)
+Theorem C02_builder_denotes_members_refuted :
+  exists ms r, build ms = BOk r /\ abs r <> mkset (map abs ms).
+Proof. exact collision_refutes_members. Qed.
+Print Assumptions C02_builder_denotes_members_refuted.
+
+Theorem C02_representation_is_function_of_denotation_refuted :
+  exists ms ms' r r', mkset (map abs ms) = mkset (map abs ms') /\ build ms = BOk r /\ build ms' = BOk r' /\ rep_equal r r' = false.
+Proof. exact collision_refutes_order. Qed.
+Print Assumptions C02_representation_is_function_of_denotation_refuted.
+
+(* Equal is not extensional on everything the builders produce: a negative character is stored as a hole (Count() 1, no
+   member, not Equal to {}), and NewTuple truncates a fractional index (different denotations, Equal representations; KF-C02-02) *)
+Theorem C02_rep_equal_is_extensional_refuted :
+  (exists r, build [RTupChar 0 (-1)] = BOk r /\ abs r = abs REmpty /\ rep_equal r REmpty = false /\ rcount r = 1 /\ rmembers r = []) /\
+  (exists a b, tuple_build [(n_at, RNum (NHalf 0)); (n_item, rint 1)] = BOk a /\
+               tuple_build [(n_at, rint 0); (n_item, rint 1)] = BOk b /\ rep_equal a b = true /\
+               mktup [(n_at, VNum (NHalf 0)); (n_item, vint 1)] <> mktup [(n_at, vint 0); (n_item, vint 1)]).
+Proof. split; [exact negative_char_refutes_extensionality|exact truncation_refutes_extensionality]. Qed.
+Print Assumptions C02_rep_equal_is_extensional_refuted.
+
+(* bucket keys that print alike (KF-C02-04): a tuple whose only attribute is named like the generic bucket replaces that
+   bucket in the UnionSet, and two relation buckets whose names join to the same text share a builder, which panics *)
+Theorem C02_builder_bucket_keys_refuted :
+  (exists ms r, build ms = BOk r /\ abs r <> mkset (map abs ms)) /\
+  build [RTupG [([97; 44; 32; 98], rint 1)]; RTupG [([97], rint 1); ([98], rint 2)]] = BPanic.
+Proof. split; [exact bucket_string_refutes_members|exact bucket_names_panic]. Qed.
+Print Assumptions C02_builder_bucket_keys_refuted.
+
+(* non-vacuity: the hypotheses of the partial theorem hold on a concrete member list with a repeated member, and a mixed
+   member list (five buckets, a multi-valued key, a hole) is built to a UnionSet denoting exactly its members *)
+Example C02_builder_partial_applies :
+  abs (RGen [rint 1; rint 2]) = mkset (map abs [rint 1; rint 2; rint 1]).
+Proof.
+  apply (C02_builder_denotes_members_partial [rint 1; rint 2; rint 1]).
+  - vm_compute. reflexivity.
+  - vm_compute. constructor; [intros []|constructor].
+  - intros b vs s Hin Hf. vm_compute in Hin. destruct Hin as [Hin|[]]. inversion Hin; subst.
+    cbn [finish_bucket] in Hf. inversion Hf; subst. apply C02_generic_bucket_denotes_members.
+    + intros x y Hx Hy. cbn [In] in Hx, Hy.
+      destruct Hx as [<-|[<-|[<-|[]]]]; destruct Hy as [<-|[<-|[<-|[]]]]; vm_compute; intros H; try reflexivity; discriminate.
+    + intros x Hx. cbn [In] in Hx. destruct Hx as [<-|[<-|[<-|[]]]]; vm_compute; intros H; discriminate.
+Qed.
+
+Example C02_builder_probe :
+  let ms := [rint 1; RTupG []; RTupChar 0 97; RTupChar 2 99; RTupEntry (rint 1) (rint 2); RTupEntry (rint 1) (rint 3);
+             RTupItem 1 REmpty; RTupG [([97], rint 1)]; RTupG [([97], rint 2)]; rint 1] in
+  exists u, build ms = BOk (RUnion u) /\ length u = 5%nat /\ abs (RUnion u) = mkset (map abs ms).
+Proof. eexists. split; [vm_compute; reflexivity|]. split; vm_compute; reflexivity. Qed.
+
+(* the hypotheses of C02_builder_denotes_members hold on a member list with five buckets, a hole, an offset, a multi-valued
+   key, a repeated member and a repeated row *)
+Definition probe_members : list rep :=
+  [rint 1; RTupG []; RTupChar 1 97; RTupChar 3 99; RTupEntry (rint 1) (rint 2); RTupEntry (rint 1) (rint 3);
+   RTupItem 1 REmpty; RTupG [([97], rint 1)]; RTupG [([97], rint 2)]; rint 1; RTupG [([97], rint 1)]].
+
+Example C02_builder_theorem_applies :
+  exists r, build probe_members = BOk r /\ wf_members probe_members /\ equal_sound_on probe_members /\
+            abs r = mkset (map abs probe_members).
+Proof.
+  assert (Hs : equal_sound_on probe_members) by (apply equal_sound_onb_ok; vm_compute; reflexivity).
+  assert (Hw : wf_members probe_members).
+  { unfold probe_members. constructor.
+    - intros m m' Hm Hm'. cbn [In] in Hm, Hm'.
+      repeat (destruct Hm as [<-|Hm]; [repeat (destruct Hm' as [<-|Hm']; [vm_compute; intros H; first [reflexivity|discriminate]|]); destruct Hm'|]); destruct Hm.
+    - intros l l' Hl Hl'. cbn [In] in Hl, Hl'.
+      repeat (destruct Hl as [Hl|Hl]; [try discriminate; inversion Hl; subst l; repeat (destruct Hl' as [Hl'|Hl']; [try discriminate; inversion Hl'; subst l'; intros; first [reflexivity|contradiction|discriminate]|]); destruct Hl'|]); destruct Hl.
+    - intros l Hl. cbn [In] in Hl.
+      repeat (destruct Hl as [Hl|Hl]; [try discriminate; inversion Hl; subst l; cbn [map fst]; repeat constructor; intros []|]); destruct Hl.
+    - intros a c Hin. cbn [In] in Hin. repeat (destruct Hin as [Hin|Hin]; [try discriminate; inversion Hin; subst; lia|]); destruct Hin.
+    - intros a c c' H1 H2. cbn [In] in H1, H2.
+      repeat (destruct H1 as [H1|H1]; [try discriminate; inversion H1; subst; repeat (destruct H2 as [H2|H2]; [try discriminate; inversion H2; subst; first [reflexivity|lia]|]); destruct H2|]); destruct H1.
+    - intros a c c' H1. cbn [In] in H1. repeat (destruct H1 as [H1|H1]; [discriminate|]); destruct H1.
+    - intros a x x' H1 H2. cbn [In] in H1, H2.
+      repeat (destruct H1 as [H1|H1]; [try discriminate; inversion H1; subst; repeat (destruct H2 as [H2|H2]; [try discriminate; inversion H2; subst; reflexivity|]); destruct H2|]); destruct H1.
+    - intros a b c d i H1. cbn [In] in H1. repeat (destruct H1 as [H1|H1]; [discriminate|]); destruct H1. }
+  destruct (build probe_members) as [r| |] eqn:Eb; try (vm_compute in Eb; discriminate).
+  exists r. split; [reflexivity|]. split; [exact Hw|]. split; [exact Hs|]. apply (C02_builder_denotes_members _ _ Eb Hw Hs).
+Qed.
+
+Example C02_string_probe :
+  build [RTupChar 3 99; RTupChar 1 97; RTupChar 3 99] = BOk (RStr 1 [97; -1; 99] 1) /\
+  build [RTupChar 1 97; RTupChar 3 99] = BOk (RStr 1 [97; -1; 99] 1).
+Proof. split; vm_compute; reflexivity. Qed.
+
+Example C02_tuple_probe :
+  tuple_build [([98], rint 2); (n_at, rint 0); ([97], rint 1)] =
+    BOk (RTupG [(n_at, rint 0); ([97], rint 1); ([98], rint 2)]) /\
+  tuple_build [(n_char, rint 97); (n_at, rint 0)] = BOk (RTupChar 0 97) /\
+  tuple_build [(n_at, REmpty); (n_char, rint 97)] = BPanic.
+Proof. repeat split; vm_compute; reflexivity. Qed.
+
+Example C02_simple_probe :
+  simple (RGen [RArr 0 [Some (RStr 0 [97] 0); None; Some (RGen [rint 1; REmpty])] 2; RTrue]) = true.
+Proof. vm_compute. reflexivity. Qed.
